@@ -6,12 +6,35 @@ package jsonexpr
 
 //@ scope eval.go
 
-// Frame only (assumed, the path-matching walk is not verified): Extract reads the decoder and
-// reports matches through the callback; it writes nothing else of the caller's state.
+// Extract reads the decoder and reports matches through the callback; it writes nothing else of
+// the caller's state (frame assumed). Whatever the walk over the document reports - a decoding
+// error anywhere in the line included - is what Extract returns: a malformed line is never
+// silently accepted.
 //@ func Extract
-//@   trusted
+//@   trusted_frame
 //@   calls extract
 //@   modifies nothing
+//@   capture w = call(e.walk, 0)
+//@   ensures[walk-result-is-returned] w_called && w_a0 == d && ret0 == w_r0
+
+// Objects and arrays are decoded to their end: the per-member callback stops the decoder only
+// with the error of the nested walk.
+//@ func (*extractor).walkObj
+//@   capture tm = call(e.tryMatchRaw, 0)
+//@   capture ob = call(d.Obj, 0)
+//@   ensures[raw-match-error-surfaces] tm_called && (tm_r0 != nil ==> ret0 == tm_r0)
+//@   ensures[decoder-result-is-returned] tm_r0 == nil ==> ob_called && ret0 == ob_r0
+//@ func (*extractor).walkObj$1
+//@   capture w = call(e.walk, 0)
+//@   ensures[stops-only-on-a-nested-error] w_called && w_a0 == d && ret0 == w_r0
+//@ func (*extractor).walkArr
+//@   capture tm = call(e.tryMatchRaw, 0)
+//@   capture ar = call(d.Arr, 0)
+//@   ensures[raw-match-error-surfaces] tm_called && (tm_r0 != nil ==> ret0 == tm_r0)
+//@   ensures[decoder-result-is-returned] tm_r0 == nil ==> ar_called && ret0 == ar_r0
+//@ func (*extractor).walkArr$1
+//@   capture w = call(e.walk, 0)
+//@   ensures[stops-only-on-a-nested-error] w_called && w_a0 == d && ret0 == w_r0
 
 //@ scope jsonexpr.go
 
